@@ -85,6 +85,9 @@ def nnls_exact(A, y):
     return best[1]
 
 
+MAX_COND = [1.0]  # largest condition number of the linear problems solved since the last reset (for scale-aware tolerances)
+
+
 def solve(A, y, fn, cond_limit):
     if A.shape[1] == 0:
         raise IllConditioned("no free clp")
@@ -93,6 +96,7 @@ def solve(A, y, fn, cond_limit):
     sv = np.linalg.svd(A, compute_uv=False)
     if sv[-1] <= 0 or sv[0] / sv[-1] > cond_limit:
         raise IllConditioned(f"cond {sv[0] / max(sv[-1], 1e-300):.1e}")
+    MAX_COND[0] = max(MAX_COND[0], sv[0] / sv[-1])
     if fn == "variable_projection":
         x, *_ = np.linalg.lstsq(A, y, rcond=None)
     else:
@@ -211,6 +215,7 @@ def reference(case, values, cond_limit=1e6):
     from vlib.gen.schemes import dataset_arrays
 
     out = {"groups": {}, "datasets": {}, "group_order": []}
+    MAX_COND[0] = 1.0
     for d in case["datasets"]:
         if d["group"] not in out["group_order"]:
             out["group_order"].append(d["group"])
@@ -347,4 +352,5 @@ def reference(case, values, cond_limit=1e6):
         v = np.concatenate(vec + [np.asarray(pens, dtype=float)]) if vec else np.zeros(0)
         out["groups"].setdefault(gname, {}).update(vector=v, n_clp=n_clp, penalties=list(pens), n_data=int(sum(len(x) for x in vec)))
     out["vector"] = np.concatenate([out["groups"][g]["vector"] for g in out["group_order"]])
+    out["max_cond"] = MAX_COND[0]
     return out
